@@ -58,7 +58,7 @@ Proof.
   - unfold bi_to_string_all in E1. ob E1 a. destruct a; injection E1 as <-; reflexivity.
   - unfold bi_format in E1. ob E1 a0. ob E1 f. ob E1 rest. ob E1 fa. ob E1 s. injection E1 as <-. reflexivity.
   - unfold bi_print in E1. ob E1 l. injection E1 as <-. reflexivity.
-  - unfold bi_time_now in E1. destruct (o_now o); [injection E1 as <-; reflexivity|discriminate E1].
+  - unfold bi_time_now in E1. inversion E1; subst; reflexivity.
 Qed.
 
 Lemma binop_all_lf : forall o cb cb' op l r st, cb_lf_equiv cb cb' -> cb_lf_closed cb -> lf l = true -> lf r = true ->
